@@ -10,6 +10,17 @@ let opt f = function Some x -> f x | None -> "-"
 let path s = if s = "0" then [] else List.map ni (split '.' s)
 let show_path = function [] -> "0" | p -> String.concat "." (List.map si p)
 let nopt s = if s = "-" then None else Some (ni s)
+(* RRset number n of type t, the convention of harness/src/bin/c09.rs (mk_rrset):
+   0 is the empty RRset; an SOA / CNAME RRset is one record n with TTL 3600; any other
+   RRset has the records 4n .. 4n + n mod 3 and the TTL 3600 + n mod 7 *)
+let rr_of (t : int) (n : int) : n * n list =
+  if n = 0 then (n_of_int 3600, [])
+  else if t = 6 || t = 5 then (n_of_int 3600, [n_of_int n])
+  else (n_of_int (3600 + n mod 7), List.init (1 + n mod 3) (fun j -> n_of_int (4 * n + j)))
+let rr_opt t s = if s = "-" then None else Some (rr_of t (int_of_string s))
+let show_rr ((ttl, recs) : n * n list) =
+  si ttl ^ "[" ^ String.concat "," (List.map string_of_int (List.sort compare (List.map int_of_n recs))) ^ "]"
+let show_soa = function Some (ttl, ser) -> si ttl ^ ":" ^ si ser | None -> "-"
 
 let show_entries (d : (n * n option) list) =
   (* model lists are newest first; print in Vec order *)
@@ -29,19 +40,19 @@ let cell_case probes ops =
     show_entries d ^ "/" ^ String.concat "," (List.map (opt si) gs)) res)
 
 let show_answer = function
-  | ANx soa -> "X(" ^ opt si soa ^ ")"
-  | ANoData soa -> "N(" ^ opt si soa ^ ")"
-  | AData rr -> "D" ^ si rr
+  | ANx soa -> "X(" ^ show_soa soa ^ ")"
+  | ANoData soa -> "N(" ^ show_soa soa ^ ")"
+  | AData rr -> "D" ^ show_rr rr
   | AAny -> "Y"
-  | ACname id -> "C" ^ si id
-  | ARefer (ns, ds, glue) -> "R" ^ si ns ^ "(" ^ opt si ds ^ ")(" ^ opt si glue ^ ")"
+  | ACname c -> "C" ^ show_rr c
+  | ARefer (ns, ds, glue) -> "R" ^ show_rr ns ^ "(" ^ opt show_rr ds ^ ")(" ^ opt show_rr glue ^ ")"
 
 let show_obs = function
   | OAnswer a -> show_answer a
   | OWalk l ->
-      let l = List.map (fun ((a, b), c) -> (show_path a, int_of_n b, int_of_n c)) l in
+      let l = List.map (fun ((a, b), c) -> (show_path a, int_of_n b, show_rr c)) l in
       let l = List.sort compare l in
-      "W[" ^ String.concat "," (List.map (fun (a, b, c) -> Printf.sprintf "%s/%d/%d" a b c) l) ^ "]"
+      "W[" ^ String.concat " " (List.map (fun (a, b, c) -> Printf.sprintf "%s/%d/%s" a b c) l) ^ "]"
   | ONoReader -> "noreader"
   | OGranted -> "granted"
   | OPending -> "pending"
@@ -60,9 +71,9 @@ let rec split_at_semi acc = function
 let trace_case ws =
   let (is, evs) = split_at_semi [] ws in
   let is = List.map (fun w -> match split ':' w with
-    | ["i"; n; t; rr] -> IRrset (path n, ni t, ni rr)
-    | ["ic"; n; id] -> ICname (path n, ni id)
-    | ["iz"; n; ns; ds; glue] -> ICut (path n, ni ns, nopt ds, nopt glue)
+    | ["i"; n; t; rr] -> IRrset (path n, ni t, rr_of (int_of_string t) (int_of_string rr))
+    | ["ic"; n; id] -> ICname (path n, rr_of 5 (int_of_string id))
+    | ["iz"; n; ns; ds; glue] -> ICut (path n, rr_of 2 (int_of_string ns), rr_opt 43 ds, rr_opt 1 glue)
     | _ -> failwith "bad init") is in
   let rec ev = function
     | ["A"; r] -> EAcquire (ni r)
@@ -71,13 +82,13 @@ let trace_case ws =
     | ["R"; r] -> ERelease (ni r)
     | ["wa"] -> EWAcquire
     | ["wo"] -> EWOpen
-    | ["u"; n; t; rr] -> EUpdate (path n, ni t, ni rr)
+    | ["u"; n; t; rr] -> EUpdate (path n, ni t, rr_of (int_of_string t) (int_of_string rr))
     | ["r"; n; t] -> ERemove (path n, ni t)
     | ["t"; n] -> ETouch (path n)
     | ["ra"] -> ERemoveAll
     | ["rn"; n] -> ERemoveAllAt (path n)
-    | ["cn"; n; id] -> ECname (path n, ni id)
-    | ["ct"; n; ns; ds; glue] -> ECut (path n, ni ns, nopt ds, nopt glue)
+    | ["cn"; n; id] -> ECname (path n, rr_of 5 (int_of_string id))
+    | ["ct"; n; ns; ds; glue] -> ECut (path n, rr_of 2 (int_of_string ns), rr_opt 43 ds, rr_opt 1 glue)
     | ["rg"; n] -> ERegular (path n)
     | ["c"] -> ECommit
     | ["cb"] -> ECommitBump
